@@ -93,8 +93,16 @@ func PipelineFromFile(file string, opts ...PipelineOption) (*Pipeline, error) {
 		opt(pipeline)
 	}
 
+	if pipeline.parametersErr != nil {
+		return nil, pipeline.parametersErr
+	}
+
 	return pipeline, nil
 }
+
+// maxInterpolatedLength bounds what the parameters make of one setting: parameters
+// can refer to each other, and each level of `p0: "%p1%%p1%"` doubles the text.
+const maxInterpolatedLength = 1 << 20
 
 type Pipeline struct {
 	Debug bool `yaml:"debug"`
@@ -108,6 +116,8 @@ type Pipeline struct {
 	currentDirectory string
 	reporter         ProgressReporter
 	veneersRewriter  *rewrite.Rewriter
+	// set when the parameters could not be interpolated into a setting
+	parametersErr error
 }
 
 func NewPipeline() (*Pipeline, error) {
@@ -150,7 +160,14 @@ func (pipeline *Pipeline) interpolate(input string) string {
 	sort.Strings(keys)
 
 	for _, key := range keys {
-		interpolated = strings.ReplaceAll(interpolated, "%"+key+"%", pipeline.Parameters[key])
+		placeholder := "%" + key + "%"
+		if grown := len(interpolated) + strings.Count(interpolated, placeholder)*len(pipeline.Parameters[key]); grown > maxInterpolatedLength {
+			pipeline.parametersErr = fmt.Errorf("parameters: '%s…' expands to more than %d bytes (do the parameters refer to each other?)", input[:min(len(input), 40)], maxInterpolatedLength)
+
+			return input
+		}
+
+		interpolated = strings.ReplaceAll(interpolated, placeholder, pipeline.Parameters[key])
 	}
 
 	return interpolated
